@@ -679,8 +679,13 @@ def oracle_c04(rows, equation=True):
                     if on_chain is None:
                         continue
                     if o["status"] in (1, 2) and not on_chain:
-                        fails.append(_fail(r, idx, "after refresh output %s is recorded status %d but is not in the UTXO set"
-                                           % ((o["acct"], o["child"]), o["status"])))
+                        ent = next((t for t in snap["txs"] if t["parent"] == o["root"] and t["id"] == o["tx"]), None)
+                        # (known finding: an input released by a cancellation before broadcast — e.g. the TTL
+                        # expiry — hangs under a cancelled entry and is not queried by a partial refresh)
+                        tag = " [released-inputs-not-rechecked]" if ent is not None and ent["type"] in (3, 4) \
+                            and o["status"] == 1 and not (k == "refresh" and s["op"].get("all")) else ""
+                        fails.append(_fail(r, idx, "after refresh output %s is recorded status %d but is not in the UTXO set%s"
+                                           % ((o["acct"], o["child"]), o["status"], tag)))
                     if o["status"] in (0, 4) and on_chain:
                         fails.append(_fail(r, idx, "after refresh output %s is in the UTXO set but recorded status %d"
                                            % ((o["acct"], o["child"]), o["status"])))
